@@ -67,9 +67,15 @@ LEAVES: dict[str, list[str]] = {
     'C3':  ['a = g3(a) + {m0}'],
     'Cn':  ['a = g1(g1(a)) + {m0}'],
     'M2':  ['a = (a * {m0}) - u'],
+    # insert_round material: `{h}` names an FP16-rounded value, so `{h} * {h}` is exact under REAL and
+    # provably representable in FP64 -- a site where a block can be put, a refusal where it cannot
+    'R0':  [f'with {CTX_FLOAT}:\n    r{{m0}} = fp.round(u)'],
+    'Xs':  ['a = {h} * {h} + {m0}'],                          # statement level: a real site
+    'Xe':  ['a = ({h} * {h} if a > {m0} else {h})'],          # if-expression arm: no place for a block
+    'Xc':  ['a = sum([{h} * {h} for z in us]) + {m0}'],       # comprehension element: no place for a block
 }
 LEAF_MARKERS = {'A': 1, 'RfU': 2, 'Rr': 1, 'Rx': 1, 'Rs': 1, 'R2': 2, 'Rc': 1, 'Rn': 2,
-                'C1': 1, 'C2': 1, 'C11': 1, 'C3': 1, 'Cn': 1, 'M2': 1}
+                'C1': 1, 'C2': 1, 'C11': 1, 'C3': 1, 'Cn': 1, 'M2': 1, 'R0': 1, 'Xs': 1, 'Xe': 1, 'Xc': 1}
 
 # container name -> (header template, number of bodies, header markers)
 CONTAINERS: dict[str, tuple[str, int, int]] = {
@@ -81,6 +87,10 @@ CONTAINERS: dict[str, tuple[str, int, int]] = {
     'I':  ('if a > {m0}:', 1, 1),
     'Ic': ('if g1(a) > {m0}:', 1, 1),                    # call in a compound header
     'IE': ('if a > {m0}:', 2, 1),
+    # exact, representable arithmetic in a compound header (see 'R0'): never a place for a block
+    'Fh': ('for x{n} in [{h} * {h}, {m0}]:', 1, 1),
+    'Wh': ('while {h} * {h} < {m0}:', 1, 1),
+    'Ih': ('if {h} * {h} > {m0}:', 1, 1),
 }
 
 MARKER_BASE = 7000000
@@ -90,6 +100,7 @@ class _Alloc:
     def __init__(self):
         self.m = MARKER_BASE
         self.n = 0
+        self.h = 'u'       # the FP16-rounded name headers may use; set by leaf 'R0'
 
     def marker(self) -> int:
         self.m += 1
@@ -110,14 +121,16 @@ def render_units(units, alloc: _Alloc) -> list[str]:
     for u in units:
         if isinstance(u, str):
             ms = {f'm{i}': alloc.marker() for i in range(LEAF_MARKERS[u])}
+            if u == 'R0':
+                alloc.h = f'r{ms["m0"]}'
             for t in LEAVES[u]:
-                out.append(t.format(**ms))
+                out.append(t.format(h=alloc.h, **ms))
         else:
             name, *bodies = u
             header, nb, nm = CONTAINERS[name]
             assert len(bodies) == nb, u
             ms = {f'm{i}': alloc.marker() for i in range(nm)}
-            text = header.format(n=alloc.loopvar(), **ms)
+            text = header.format(n=alloc.loopvar(), h=alloc.h, **ms)
             text += '\n' + _indent('\n'.join(render_units(bodies[0], alloc)))
             if nb == 2:
                 text += '\nelse:\n' + _indent('\n'.join(render_units(bodies[1], alloc)))
@@ -165,6 +178,9 @@ SKELETONS: list[tuple[str, list, str]] = [
     ('K6', [('Fs', ['_', ('Fr', ['_'])]), ('Wc', ['M2'])], 'round'),
     ('K7', [('F', ['Rc']), ('F', [('F', ['_']), '_']), ('W', ['Cn'])], 'plain'),
     ('K8', [('IE', [('W', ['_'])], [('W', ['_'])]), ('Ic', ['C3']), ('F', ['C11'])], 'plain'),
+    # arithmetic where insert_round cannot put a block, with marked statements before and after
+    ('H1', ['R0', ('Fh', ['_']), 'Xs', ('Wh', ['Xe']), 'A'], 'plain'),
+    ('H2', ['R0', 'Xs', ('Ih', [('Fh', ['A']), 'Xc']), ('W', ['_'])], 'plain'),
     # small nests for the deeper histories
     ('D1', [('F', ['_']), ('W', ['_'])], 'plain'),
     ('D2', [('F', [('W', ['_'])]), '_'], 'plain'),
